@@ -35,7 +35,8 @@ class Engine(EngineBase):
 
     def rule(self):
         return ("seeded scenario = pre-state (1-2 projects, 1-4 jobs with document + nested marker files, "
-                "destination free / initialised / empty directory) + one lifecycle operation (init, state "
+                "destination free / initialised / empty directory, optionally a persistent cache) + one lifecycle "
+                "operation (init - explicit or through the first document access -, state "
                 "point change by item set / delete / assignment / update_statepoint, move, clone, remove, "
                 "clear, reset) through a by-state-point / by-id / pre-loaded handle; the single-fault space "
                 "of the operation's trace is enumerated completely (death before every mutating step, torn "
